@@ -20,44 +20,66 @@ ARRAY_NAMES = {'x', 'y', 'a', 'x_ref', 'y_ref', 'new_x', 'lookup'}
 _FACTS: Dict[tuple, list] = {}
 
 
+DISPATCH_LITERALS = {
+    'method': ['linear', 'constant', 'cubic', 'spline'],
+    'integral_method': ['trapezoid', 'rectangle'], 'target_function_integral_method': ['trapezoid', 'rectangle'],
+    'reference_function_integral_method': ['trapezoid', 'rectangle'], 'fixed_points_finding_strategy': ['closest', 'lower', 'higher'],
+    'strategy': ['closest', 'lower', 'higher'], 'direction': ['both', 'left', 'right'],
+}
+
+
 def callee_returns(prog, fi: FuncInfo) -> List[Tuple[tuple, Val]]:
     """(guard, value) of every return of fi (implicit None included), evaluated fully inlined with array parameters of one
-    common symbolic length"""
+    common symbolic length; name-dispatch parameters are specialised to each documented literal (any dispatch idiom)"""
     key = (id(prog), id(sym.ATOMS), fi.qualname)
     if key in _FACTS:
         return _FACTS[key]
+    import itertools
     L = sym.sym('L')
-    args: Dict[str, Val] = {}
     a = fi.node.args
-    for p in fi.params() + [x.arg for x in a.kwonlyargs]:
-        if p == 'self':
-            continue
-        if p in ('x_ref', 'y_ref'):
-            args[p] = arr_param('in:' + p, length=sym.sym('Lref'))
-        elif p == 'new_x':
-            args[p] = arr_param('in:' + p, length=sym.sym('Lnew'))
-        elif p in ARRAY_NAMES:
-            args[p] = arr_param('in:' + p, length=L)
-        elif p in ('fun', 'method', 'fixed_points_finding_strategy', 'target_function_integral_method', 'reference_function_integral_method',
-                   'integral_method', 'strategy', 'direction'):
-            args[p] = Term('param', (Const(p),))
-        elif p in ('fixed_points_in_x', 'fixed_points_indices_in_x', 's', 'left', 'snr'):
-            args[p] = Const(None) if p != 'snr' else Num(sym.sym('in:snr'))
-        else:
-            args[p] = Num(sym.sym('in:' + p))
-    star = Term('param', (Const('**' + a.kwarg.arg),), kind='dict') if a.kwarg else None
-    ev = Evaluator(prog, opaque_kind=REPO_RESULT_KIND, max_depth=10)
-    res, st = ev.run_function(fi, args=args, star_kwargs=star)
-    out = []
-    for e in ev.events:
-        if e.func is fi and e.kind == 'return' and len([f for f in [1]]) and _top_level(ev, e, fi):
-            out.append((e.guard, e.data['value']))
-        elif e.kind == 'fallthrough' and e.data.get('func') is fi:
-            out.append((e.guard, Const(None)))
+    allp = [p for p in fi.params() + [x.arg for x in a.kwonlyargs] if p != 'self']
+    disp = [p for p in allp if p in DISPATCH_LITERALS and not (p == 'method' and not fi.qualname.endswith('process.interpolate') and not fi.qualname.endswith('.integral'))]
+    if fi.qualname.endswith('sorted_array_utils.integral'):
+        disp = ['method']
+    combos = list(itertools.product(*[(DISPATCH_LITERALS[p] if not fi.qualname.endswith('sorted_array_utils.integral') else ['trapezoid', 'rectangle']) for p in disp])) or [()]
+    if len(combos) > 12:
+        combos = combos[:12]
+    out, raises_all, evs = [], [], []
+    for combo in combos:
+        args: Dict[str, Val] = {}
+        for p in allp:
+            if p in disp:
+                args[p] = Const(combo[disp.index(p)])
+            elif p in ('x_ref', 'y_ref'):
+                args[p] = arr_param('in:' + p, length=sym.sym('Lref'))
+            elif p == 'new_x':
+                args[p] = arr_param('in:' + p, length=sym.sym('Lnew'))
+            elif p in ARRAY_NAMES:
+                args[p] = arr_param('in:' + p, length=L)
+            elif p in ('fun', 'method'):
+                args[p] = Term('param', (Const(p),))
+            elif p in ('fixed_points_in_x', 'fixed_points_indices_in_x', 's', 'left', 'snr'):
+                args[p] = Const(None) if p != 'snr' else Num(sym.sym('in:snr'))
+            else:
+                args[p] = Num(sym.sym('in:' + p))
+        star = Term('param', (Const('**' + a.kwarg.arg),), kind='dict') if a.kwarg else None
+        ev = Evaluator(prog, opaque_kind=REPO_RESULT_KIND, max_depth=10)
+        res, st = ev.run_function(fi, args=args, star_kwargs=star)
+        for e in ev.events:
+            if e.func is fi and e.kind == 'return':
+                out.append((e.guard, e.data['value']))
+            elif e.kind == 'fallthrough' and e.data.get('func') is fi:
+                out.append((e.guard, Const(None)))
+        raises_all += [e for e in ev.events if e.kind == 'raise']
+        evs.append(ev)
     _FACTS[key] = out
-    _RAISES[key] = [e for e in ev.events if e.kind == 'raise']
-    _EVS[key] = ev
+    _RAISES[key] = raises_all
+    _EVS[key] = evs[0]
     return out
+
+
+def _top_level(ev, e, fi) -> bool:
+    return True
 
 
 _RAISES: Dict[tuple, list] = {}
